@@ -189,6 +189,19 @@ func rulesC10(c *Ctx) {
 					s, ok := ast.Unparen(ce.Fun).(*ast.SelectorExpr)
 					return ok && wr.ObjOf(s.X) == respVar
 				})
+				// ... and under nothing else: the innermost condition consists of exactly these two tests (in a stateless
+				// JSON-mode server too, a notification must not be buffered into the request's JSON body)
+				if cs := g.guardingConds(g.VertexOf(w)); len(cs) > 0 {
+					var leaves []Atom
+					splitAtoms(g.Node(cs[len(cs)-1]).(ast.Expr), true, &leaves)
+					n := 0
+					for _, a := range leaves {
+						if !isCompound(a.E) {
+							n++
+						}
+					}
+					c.Check(n == 2, "Write:related=none-in-json-mode:not-narrowed", wr, w, "the out-of-band rule depends on jsonResponse and on the message not being a response, and on nothing else (%d tests)", n)
+				}
 				c.Check(okG, "Write:related=none-in-json-mode", wr, w, "only in JSON-response mode, and only for non-responses, is the relation dropped (→ standalone stream) (guards: %s)", atomsString(guards))
 			default:
 				c.Fail("Write:related=?", wr, w, "unrecognised source of the related request id: %s", exprStr(rhs))
